@@ -4,6 +4,7 @@
 (* two definitions of a search result agree with each other.                *)
 EXTENDS Basic, TLC
 
+CONSTANT MaxLen
 VARIABLES tag, x
 
 \* ---- item sequences up to length 4 over an alphabet with one item of every shape --------------------------
@@ -33,13 +34,13 @@ ItemsOK(its) ==
   /\ WFPrefix(ls, 1) = 1
   /\ Variables(m, Word(m, VARS)) = <<>>
   \* the renderer and the matcher agree, exactly under each rule and loosely across rules
-  /\ MatchText("rom", its, romt, <<>>, <<>>, 1, 0, TRUE) = [v |-> "ok", d |-> 0]
-  /\ MatchText("sk", its, skt, <<>>, <<>>, 1, 0, FALSE) = [v |-> "ok", d |-> 0]
-  /\ MatchText("loose", its, romt, <<>>, <<>>, 1, 0, TRUE).v = "ok"
-  /\ MatchText("loose", its, skt, <<>>, <<>>, 1, 0, TRUE).v = "ok"
+  /\ MatchText("rom", its, romt, <<>>, <<>>, 1, 0, 0, TRUE) = [v |-> "ok", d |-> 0]
+  /\ MatchText("sk", its, skt, <<>>, <<>>, 1, 0, 0, FALSE) = [v |-> "ok", d |-> 0]
+  /\ MatchText("loose", its, romt, <<>>, <<>>, 1, 0, 0, TRUE).v = "ok"
+  /\ MatchText("loose", its, skt, <<>>, <<>>, 1, 0, 0, TRUE).v = "ok"
   \* and the matcher is not vacuous: one more or one fewer character is refused
-  /\ MatchText("loose", its, skt \o <<65>>, <<>>, <<>>, 1, 0, TRUE).v # "ok"
-  /\ (Len(skt) > 0 /\ Last(skt) # 32) => MatchText("loose", its, SubSeq(skt, 1, Len(skt) - 1), <<>>, <<>>, 1, 0, TRUE).v # "ok"
+  /\ MatchText("loose", its, skt \o <<65>>, <<>>, <<>>, 1, 0, 0, TRUE).v # "ok"
+  /\ (Len(skt) > 0 /\ Last(skt) # 32) => MatchText("loose", its, SubSeq(skt, 1, Len(skt) - 1), <<>>, <<>>, 1, 0, 0, TRUE).v # "ok"
 
 \* ---- two lines, the second one's number above 9999, variables after them ------------------------------------
 TwoOK(ix) ==
@@ -106,19 +107,23 @@ FormatOK ==
   /\ TileAddr(0, 0) = 16384 /\ TileAddr(31, 23) = 20735 /\ TileAddr(1, 8) = 18433
   /\ Len(KW) = 91 /\ Keyword(255) = <<67, 79, 80, 89>> /\ Keyword(236) = <<71, 79, 32, 84, 79>>
 
-Init == \/ tag = "items" /\ x \in UNION {{ItemsOf(ix) : ix \in Idx(n)} : n \in 0..4}
+\* The spaces are grown by Next so that all workers share the work (initial states are computed by one thread).
+Init == \/ tag = "items" /\ x = <<>>
         \/ tag = "two" /\ x \in [1..2 -> 1..NA]
-        \/ tag = "int" /\ x \in -65535..65535
-        \/ tag = "float" /\ x \in FloatSpace
+        \/ tag = "inthi" /\ x \in -256..255
+        \/ tag = "floatex" /\ x \in -159..95
         \/ tag = "vars" /\ x \in VarSpace \X VarSpace
         \/ tag = "find" /\ x \in FindSpace
         \/ tag = "format" /\ x = 0
-Next == UNCHANGED <<tag, x>>
-Inv == CASE tag = "items" -> ItemsOK(x)
+Next == \/ tag = "items" /\ Len(x) < MaxLen /\ \E k \in 1..NA : x' = Append(x, k) /\ UNCHANGED tag
+        \/ tag = "inthi" /\ \E lo \in 0..255 : x' = x * 256 + lo /\ x' \in -65535..65535 /\ tag' = "int"
+        \/ tag = "floatex" /\ \E f \in FloatSpace : f[4] = x /\ x' = f /\ tag' = "float"
+Inv == CASE tag = "items" -> ItemsOK(ItemsOf(x))
          [] tag = "two" -> TwoOK(x)
          [] tag = "int" -> IntOK(x)
          [] tag = "float" -> FloatOK(x)
          [] tag = "vars" -> VarsOK(x)
          [] tag = "find" -> FindOK(x)
-         [] OTHER -> FormatOK
+         [] tag = "format" -> FormatOK
+         [] OTHER -> TRUE
 =============================================================================
